@@ -7,7 +7,7 @@
    (the term's token, the operator tables) are done by hand. *)
 From Coq Require Import List NArith ZArith Bool Lia.
 From Abasic Require Import Model.Bytes Model.Num Model.Token Model.Data Model.Lexer Gen.Tables
-     Model.State Model.Eval Model.Interp Model.Analyzer.
+     Model.State Model.Eval Model.Interp Model.Analyzer Proofs.CheckSound.
 Import ListNotations.
 Local Open Scope nat_scope.
 
@@ -26,11 +26,21 @@ Definition line_of (s : interp) : list token :=
   | Some n => match toks_get n (st_toks s) with Some ts => ts | None => [] end
   end.
 
+Lemma token_eqb_exprtok t u : token_eqb t u = true -> exprtok t = exprtok u.
+Proof. destruct t, u; cbn; intros H; try reflexivity; try discriminate H. Qed.
+
+Section Phi.
+  (* the class of tokens: anything that contains the expression tokens and cannot
+     tell two tokens apart that the interpreter's own token comparison identifies *)
+  Variable phi : token -> bool.
+  Hypothesis Hsub : forall t, exprtok t = true -> phi t = true.
+  Hypothesis Hresp : forall t u, token_eqb t u = true -> phi t = phi u.
+
 (* [s'] is [s] with the cursor moved forward over expression tokens *)
 Definition PL (s s' : interp) : Prop :=
   st_toks s' = st_toks s /\ immediate s' = immediate s /\ loc_line (loc s') = loc_line (loc s)
   /\ loc_idx (loc s) <= loc_idx (loc s')
-  /\ forall q, loc_idx (loc s) <= q < loc_idx (loc s') -> exists t, nth_error (line_of s) q = Some t /\ exprtok t = true.
+  /\ forall q, loc_idx (loc s) <= q < loc_idx (loc s') -> exists t, nth_error (line_of s) q = Some t /\ phi t = true.
 
 Lemma PL_refl s : PL s s.
 Proof. repeat split; try reflexivity. intros q Hq. lia. Qed.
@@ -53,7 +63,7 @@ Lemma PL_same s s' : st_toks s' = st_toks s -> immediate s' = immediate s -> loc
 Proof. intros H1 H2 H3. repeat split; try assumption; rewrite H3; try reflexivity. intros q Hq. lia. Qed.
 
 (* one token forward *)
-Lemma PL_step s t : nth_error (line_of s) (loc_idx (loc s)) = Some t -> exprtok t = true ->
+Lemma PL_step s t : nth_error (line_of s) (loc_idx (loc s)) = Some t -> phi t = true ->
   PL s (set_loc (mkloc (loc_line (loc s)) (S (loc_idx (loc s)))) (set_reads (S (reads s)) s)).
 Proof.
   intros Hn Ht. destruct s as [? ? ? [ln ix] ? ? ? ? ? ? ? ? ? ? ? ? ? ? ?]. cbn in *.
@@ -97,20 +107,17 @@ Proof.
   - unfold ret. intros E. injection E as <- <-. reflexivity.
 Qed.
 
-Lemma token_eqb_exprtok t u : token_eqb t u = true -> exprtok t = exprtok u.
-Proof. destruct t, u; cbn; intros H; try reflexivity; try discriminate H. Qed.
-
-Lemma mpl_expect u : exprtok u = true -> mpl (expect_next_token u).
+Lemma mpl_expect u : phi u = true -> mpl (expect_next_token u).
 Proof.
   intros Hu s x s' E. unfold expect_next_token, next_unwrapped_token, bind in E.
   destruct (next_token s) as [[y|? ?|?| |] s1] eqn:En; try discriminate E.
   pose proof (next_token_spec _ _ _ En) as Hs. destruct y as [t|].
   - destruct Hs as [Ht ->]. unfold ret in E. destruct (token_eqb t u) eqn:Eq; [|discriminate E].
-    injection E as _ <-. apply (PL_step s t Ht). rewrite (token_eqb_exprtok _ _ Eq). exact Hu.
+    injection E as _ <-. apply (PL_step s t Ht). rewrite (Hresp _ _ Eq). exact Hu.
   - cbn in E. discriminate E.
 Qed.
 
-Lemma mpl_accept u : exprtok u = true -> mpl (accept_next_token u).
+Lemma mpl_accept u : phi u = true -> mpl (accept_next_token u).
 Proof.
   intros Hu s x s' E. unfold accept_next_token, bind in E.
   destruct (peek_next_token s) as [[y|? ?|?| |] s1] eqn:Ep; try discriminate E.
@@ -120,12 +127,12 @@ Proof.
     + unfold advance, modify, ret in E. cbn in E. injection E as _ <-.
       replace (set_loc _ _) with (set_loc (mkloc (loc_line (loc s)) (S (loc_idx (loc s)))) (set_reads (S (reads s)) s))
         by (destruct s; reflexivity).
-      apply (PL_step s t Et). rewrite (token_eqb_exprtok _ _ Eq). exact Hu.
+      apply (PL_step s t Et). rewrite (Hresp _ _ Eq). exact Hu.
     + injection E as _ <-. apply PL_same; destruct s; reflexivity.
   - injection E as _ <-. apply PL_same; destruct s; reflexivity.
 Qed.
 
-Lemma mpl_try {B} (g : token -> option B) : (forall t b, g t = Some b -> exprtok t = true) -> mpl (try_next_token g).
+Lemma mpl_try {B} (g : token -> option B) : (forall t b, g t = Some b -> phi t = true) -> mpl (try_next_token g).
 Proof.
   intros Hg s x s' E. unfold try_next_token, bind in E.
   destruct (peek_next_token s) as [[y|? ?|?| |] s1] eqn:Ep; try discriminate E.
@@ -140,14 +147,14 @@ Proof.
   - injection E as _ <-. apply PL_same; destruct s; reflexivity.
 Qed.
 
-Lemma unary_exprtok t b : unary_of_token t = Some b -> exprtok t = true.
-Proof. destruct t; cbn; intros H; try discriminate H; reflexivity. Qed.
-Lemma muldiv_exprtok t b : muldiv_of_token t = Some b -> exprtok t = true.
-Proof. destruct t; cbn; intros H; try discriminate H; reflexivity. Qed.
-Lemma addsub_exprtok t b : addsub_of_token t = Some b -> exprtok t = true.
-Proof. destruct t; cbn; intros H; try discriminate H; reflexivity. Qed.
-Lemma eq_exprtok t b : eq_of_token t = Some b -> exprtok t = true.
-Proof. destruct t; cbn; intros H; try discriminate H; reflexivity. Qed.
+Lemma unary_exprtok t b : unary_of_token t = Some b -> phi t = true.
+Proof. intros H. apply Hsub. destruct t; cbn in *; try discriminate H; reflexivity. Qed.
+Lemma muldiv_exprtok t b : muldiv_of_token t = Some b -> phi t = true.
+Proof. intros H. apply Hsub. destruct t; cbn in *; try discriminate H; reflexivity. Qed.
+Lemma addsub_exprtok t b : addsub_of_token t = Some b -> phi t = true.
+Proof. intros H. apply Hsub. destruct t; cbn in *; try discriminate H; reflexivity. Qed.
+Lemma eq_exprtok t b : eq_of_token t = Some b -> phi t = true.
+Proof. intros H. apply Hsub. destruct t; cbn in *; try discriminate H; reflexivity. Qed.
 
 (* ------------------------------------------------------------------ *)
 (* the analyzer monad *)
@@ -191,8 +198,8 @@ Ltac apl_step leaf :=
   | |- apl (lift (get _)) => apply apl_get
   | |- apl (lift (peek_is _)) => apply apl_lift, mpl_peek_is
   | |- apl (lift peek_next_token) => apply apl_lift, mpl_peek
-  | |- apl (lift (expect_next_token _)) => apply apl_lift, mpl_expect; reflexivity
-  | |- apl (lift (accept_next_token _)) => apply apl_lift, mpl_accept; reflexivity
+  | |- apl (lift (expect_next_token _)) => apply apl_lift, mpl_expect; first [reflexivity | apply Hsub; reflexivity]
+  | |- apl (lift (accept_next_token _)) => apply apl_lift, mpl_accept; first [reflexivity | apply Hsub; reflexivity]
   | |- apl (abind _ _) => apply apl_bind; [| intro]
   | |- apl (arepeat _ _ _) => apply apl_repeat; intro
   | |- apl (match ?x with _ => _ end) => destruct x
@@ -234,7 +241,7 @@ Section APlainExpr.
   Proof.
     intros st x st' E. unfold an_term in E. unfold abind at 1 in E. unfold lift at 1 in E.
     destruct (next_unwrapped_token (fst st)) as [[t|? ?|?| |] p1] eqn:En; try discriminate E.
-    assert (H1 : exprtok t = true -> PL (fst st) p1).
+    assert (H1 : phi t = true -> PL (fst st) p1).
     { intros Ht. unfold next_unwrapped_token, bind in En.
       destruct (next_token (fst st)) as [[y|? ?|?| |] s1] eqn:En2; try discriminate En.
       pose proof (next_token_spec _ _ _ En2) as Hs. destruct y as [t0|]; [|cbn in En; discriminate En].
@@ -242,14 +249,14 @@ Section APlainExpr.
     cbn [fst snd] in E.
     destruct t; try discriminate E.
     - (* a name *)
-      eapply PL_trans; [apply H1; reflexivity|].
+      eapply PL_trans; [apply H1; apply Hsub; reflexivity|].
       refine ((_ : apl (l <-- prev_loc ;; p <-- lift (peek_is TLeftParen) ;; _)) (p1, snd st) x st' E).
       apl_walk ltac:(idtac; lazymatch goal with
                             | |- apl (an_function_call _ _ _) => apply apl_function_call
                             | |- apl (an_array_index _ _) => apply apl_array_index
                             | _ => leaf end).
-    - unfold aret in E. injection E as _ <-. apply H1. reflexivity.
-    - unfold aret in E. injection E as _ <-. apply H1. reflexivity.
+    - unfold aret in E. injection E as _ <-. apply H1. apply Hsub. reflexivity.
+    - unfold aret in E. injection E as _ <-. apply H1. apply Hsub. reflexivity.
   Qed.
 
   Lemma apl_paren : apl (an_paren fuel rec).
@@ -270,18 +277,18 @@ Section APlainExpr.
     apl_walk ltac:(first [exact H1 | exact H2 | apply H3]).
   Qed.
 
-  Lemma apl_accept_as t : exprtok t = true -> apl (an_accept_as t).
+  Lemma apl_accept_as t : phi t = true -> apl (an_accept_as t).
   Proof. intros Ht. unfold an_accept_as. apply apl_bind; [apply apl_lift, mpl_accept, Ht | intro; apply apl_ret]. Qed.
 
   Lemma apl_or : apl (an_or fuel rec).
   Proof.
     unfold an_or, an_and, an_equality, an_addsub, an_muldiv, an_exponent.
-    apply apl_tier; [apply apl_accept_as; reflexivity | | intros; apply apl_ret].
-    apply apl_tier; [apply apl_accept_as; reflexivity | | intros; apply apl_ret].
+    apply apl_tier; [apply apl_accept_as; apply Hsub; reflexivity | | intros; apply apl_ret].
+    apply apl_tier; [apply apl_accept_as; apply Hsub; reflexivity | | intros; apply apl_ret].
     apply apl_tier; [apply apl_lift, mpl_try, eq_exprtok | | intros; apl_walk leaf].
     apply apl_tier; [apply apl_lift, mpl_try, addsub_exprtok | | intros; unfold both_numbers; apl_walk leaf].
     apply apl_tier; [apply apl_lift, mpl_try, muldiv_exprtok | | intros; unfold both_numbers; apl_walk leaf].
-    apply apl_tier; [apply apl_accept_as; reflexivity | apply apl_unary | intros; unfold both_numbers; apl_walk leaf].
+    apply apl_tier; [apply apl_accept_as; apply Hsub; reflexivity | apply apl_unary | intros; unfold both_numbers; apl_walk leaf].
   Qed.
 End APlainExpr.
 
@@ -305,7 +312,168 @@ Proof.
   pose proof (next_token_spec _ _ _ En) as Hs.
   destruct t as [t|]; [|discriminate E]. destruct Hs as [Ht ->].
   destruct t; try discriminate E.
-  eapply PL_trans; [apply (PL_step _ _ Ht); reflexivity|].
+  eapply PL_trans; [apply (PL_step _ _ Ht); apply Hsub; reflexivity|].
   refine ((_ : apl (l <-- prev_loc ;; ar <-- an_optional_array_index fuel nest ;; _)) (_, snd st) x st' E).
   apl_walk ltac:(idtac; lazymatch goal with |- apl (an_optional_array_index _ _) => apply apl_optional_index end).
 Qed.
+
+End Phi.
+
+(* ------------------------------------------------------------------ *)
+(* statements: everything a non-branching statement consumes is neither ELSE nor ":" *)
+Definition plainT (t : token) : bool := match t with TElse | TColon => false | _ => true end.
+
+Lemma plainT_sub t : exprtok t = true -> plainT t = true.
+Proof. destruct t; cbn; intros H; try reflexivity; discriminate H. Qed.
+Lemma plainT_resp t u : token_eqb t u = true -> plainT t = plainT u.
+Proof. destruct t, u; cbn; intros H; try reflexivity; try discriminate H. Qed.
+
+Notation PLp := (PL plainT).
+Notation aplp := (apl plainT).
+
+Ltac pstep leaf :=
+  lazymatch goal with
+  | |- apl _ (aret _) => apply apl_ret
+  | |- apl _ (afail _) => apply apl_fail
+  | |- apl _ (log_access _ _ _) => apply apl_log
+  | |- apl _ (check _ _) => apply apl_check
+  | |- apl _ (check_number _) => apply apl_check
+  | |- apl _ prev_loc => apply apl_prev_loc
+  | |- apl _ (lift (get _)) => apply apl_get
+  | |- apl _ (lift (peek_is _)) => apply apl_lift, mpl_peek_is
+  | |- apl _ (lift peek_next_token) => apply apl_lift, mpl_peek
+  | |- apl _ (lift (expect_next_token _)) => apply apl_lift, (mpl_expect plainT plainT_resp); reflexivity
+  | |- apl _ (lift (accept_next_token _)) => apply apl_lift, (mpl_accept plainT plainT_resp); reflexivity
+  | |- apl _ (lift reset_data_cursor) =>
+      apply apl_lift; intros ?s ?x ?s' ?E; unfold reset_data_cursor, modify in *;
+      match goal with E : _ = (Ok _, _) |- _ => injection E as _ <- end; apply PL_same; destruct s; reflexivity
+  | |- apl _ (abind _ _) => apply apl_bind; [| intro]
+  | |- apl _ (arepeat _ _ _) => apply apl_repeat; intro
+  | |- apl _ (match ?x with _ => _ end) => destruct x
+  | |- apl _ (if ?b then _ else _) => destruct b
+  | |- apl _ _ => solve [leaf]
+  end.
+Ltac pwalk leaf := repeat (pstep leaf).
+
+(* the token a [next_token] consumes is the one under the cursor *)
+Lemma apl_next_token_then {A} (k : option token -> MA A) :
+  (forall t, plainT t = true -> aplp (k (Some t))) ->
+  (forall t, plainT t = false -> forall st, match k (Some t) st with (Ok _, _) => False | _ => True end) ->
+  aplp (k None) ->
+  aplp (t <-- lift next_token ;; k t).
+Proof.
+  intros Hk Hbad Hnone st x st' E. unfold abind at 1 in E. unfold lift at 1 in E.
+  destruct (next_token (fst st)) as [[t|? ?|?| |] p1] eqn:En; try discriminate E. cbn [fst snd] in E.
+  pose proof (next_token_spec _ _ _ En) as Hs. destruct t as [t|].
+  - destruct Hs as [Ht ->]. destruct (plainT t) eqn:Ep.
+    + eapply PL_trans; [apply (PL_step plainT _ _ Ht Ep)|]. exact (Hk t Ep _ _ _ E).
+    + exfalso. pose proof (Hbad t Ep (set_loc (mkloc (loc_line (loc (fst st))) (S (loc_idx (loc (fst st))))) (set_reads (S (reads (fst st))) (fst st)), snd st)) as Hb.
+      rewrite E in Hb. exact Hb.
+  - subst p1. eapply PL_trans; [|exact (Hnone _ _ _ E)]. apply PL_same; destruct (fst st); reflexivity.
+Qed.
+
+Section PlainStmt.
+  Variable fuel nest : nat.
+
+  Ltac leaf :=
+    idtac;
+    lazymatch goal with
+    | |- apl _ (aexpr _ _) => apply (apl_analyze_expression plainT plainT_sub plainT_resp)
+    | |- apl _ (analyze_expression _ _) => apply (apl_analyze_expression plainT plainT_sub plainT_resp)
+    | |- apl _ (an_optional_array_index _ _) => apply (apl_optional_index plainT plainT_sub plainT_resp)
+    | |- apl _ (an_parse_lvalue _ _) => apply (apl_parse_lvalue plainT plainT_sub plainT_resp)
+    end.
+
+  Lemma aplp_assign lv t : aplp (an_assign lv t).
+  Proof. unfold an_assign. pwalk leaf. Qed.
+
+  Lemma aplp_assignment sym : aplp (an_assignment fuel nest sym).
+  Proof.
+    unfold an_assignment.
+    pwalk ltac:(idtac; lazymatch goal with |- apl _ (an_assign _ _) => apply aplp_assign | _ => leaf end).
+  Qed.
+
+  Lemma aplp_let : aplp (an_let fuel nest).
+  Proof.
+    unfold an_let. apply apl_next_token_then.
+    - intros t _. destruct t; try apply apl_fail. apply aplp_assignment.
+    - intros t Hp st. destruct t; try discriminate Hp; exact I.
+    - apply apl_fail.
+  Qed.
+
+  Lemma aplp_dim : aplp (an_dim fuel nest).
+  Proof. unfold an_dim. pwalk leaf. Qed.
+
+  Lemma aplp_read : aplp (an_read fuel nest).
+  Proof.
+    unfold an_read.
+    pwalk ltac:(idtac; lazymatch goal with |- apl _ (an_assign _ _) => apply aplp_assign | _ => leaf end).
+  Qed.
+
+  Lemma aplp_for : aplp (an_for fuel nest).
+  Proof.
+    unfold an_for. apply apl_next_token_then.
+    - intros t _. destruct t; try apply apl_fail. pwalk leaf.
+    - intros t Hp st. destruct t; try discriminate Hp; exact I.
+    - apply apl_fail.
+  Qed.
+
+  Lemma aplp_next : aplp an_next.
+  Proof.
+    unfold an_next. apply apl_next_token_then.
+    - intros t _. destruct t; try apply apl_fail. pwalk leaf.
+    - intros t Hp st. destruct t; try discriminate Hp; exact I.
+    - apply apl_fail.
+  Qed.
+
+  Lemma aplp_goto_or_gosub : aplp an_goto_or_gosub.
+  Proof.
+    unfold an_goto_or_gosub. apply apl_next_token_then.
+    - intros t _. destruct t; try apply apl_fail. pwalk leaf.
+    - intros t Hp st. destruct t; try discriminate Hp; exact I.
+    - apply apl_fail.
+  Qed.
+
+  (* PRINT: ";" and "," are consumed after they were seen *)
+  Lemma aplp_print : aplp (an_print fuel nest).
+  Proof.
+    unfold an_print. apply apl_repeat. intros [] st x st' E.
+    unfold abind at 1 in E. unfold lift at 1 in E.
+    destruct (peek_next_token (fst st)) as [[t|? ?|?| |] p1] eqn:Ep; try discriminate E. cbn [fst snd] in E.
+    destruct (peek_spec _ _ _ Ep) as [-> ->].
+    set (s1 := set_reads (S (reads (fst st))) (fst st)) in *.
+    assert (H1 : PLp (fst st) s1) by (apply PL_same; destruct (fst st); reflexivity).
+    assert (Hsame : nth_error (line_of s1) (loc_idx (loc s1)) = nth_error (line_of (fst st)) (loc_idx (loc (fst st))))
+      by (destruct (fst st); reflexivity).
+    assert (Hnext : forall (y : unit + unit) st2, (lift next_token ;;;; aret (@inl unit unit tt)) (s1, snd st) = (Ok y, st2) ->
+              forall t0, nth_error (line_of (fst st)) (loc_idx (loc (fst st))) = Some t0 -> plainT t0 = true -> PLp s1 (fst st2)).
+    { intros y st2 E2 t0 Ht0 Hp0. unfold abind, lift in E2. cbn [fst snd] in E2.
+      destruct (next_token s1) as [[u|? ?|?| |] p2] eqn:En; try discriminate E2.
+      pose proof (next_token_spec _ _ _ En) as Hs. rewrite Hsame, Ht0 in Hs.
+      destruct u as [u|]; [|unfold aret in E2; injection E2 as _ <-; subst p2; apply PL_same; destruct s1; reflexivity].
+      destruct Hs as [Hu ->]. unfold aret in E2. injection E2 as _ <-. cbn [fst].
+      apply (PL_step plainT s1 u); [rewrite Hsame, Ht0; exact Hu|]. injection Hu as <-. exact Hp0. }
+    destruct (nth_error (line_of (fst st)) (loc_idx (loc (fst st)))) as [t|] eqn:Et.
+    - destruct t;
+        try (unfold aret in E; injection E as _ <-; exact H1);
+        try (eapply PL_trans; [exact H1|]; exact (Hnext _ _ E _ eq_refl eq_refl));
+        (eapply PL_trans; [exact H1|];
+         refine ((_ : aplp (aexpr fuel nest ;;;; aret (@inl unit unit tt))) (s1, snd st) x st' E); pwalk leaf).
+    - unfold aret in E. injection E as _ <-. exact H1.
+  Qed.
+
+  (* every statement head but IF, DEF, INPUT and ":" *)
+  Definition plain_head (t : option token) : bool :=
+    match t with
+    | Some (TIf | TDef | TInput | TColon | TElse) => false
+    | _ => true
+    end.
+
+  Lemma aplp_dispatch arec t : plain_head t = true -> aplp (adispatch fuel nest arec t).
+  Proof.
+    intros H. destruct t as [t|]; [destruct t; try discriminate H|]; cbn [adispatch];
+      first [ apply apl_ret | apply apl_fail | apply aplp_dim | apply aplp_print | apply aplp_goto_or_gosub | apply aplp_for
+            | apply aplp_next | apply aplp_read | apply aplp_let | apply aplp_assignment
+            | pwalk leaf ].
+  Qed.
+End PlainStmt.
